@@ -142,4 +142,112 @@ theorem uninline_conts {w : World} {e : Elem} {cx : Ctx} {e' : Elem} {ov : Optio
     subst hzx
     exact hz ⟨hp, by rw [hx]; rfl⟩
 
+theorem contsSig_uninline {w : World} {e : Elem} {cx : Ctx} {e' : Elem} {ov : Option SlabID} {w4 : World} {cx4 : Ctx}
+    (h : w.uninlineIfNeeded e cx = .ok (e', ov, w4, cx4)) : ContsSig w w4 := by
+  obtain ⟨_, _, _, hT, _, hc⟩ := uninlineIfNeeded_ok h
+  refine ⟨hT, fun q => ?_⟩
+  rcases hc with ⟨_, _, rfl, _, _⟩ | ⟨x, c, _, hp, hx, ⟨_, _, rfl, _⟩ | ⟨_, c', hsd, _, rfl, _, _⟩⟩
+  · rfl
+  · rfl
+  · by_cases hq : x = q
+    · subst hq
+      rw [cont?_setCont_self, hx]
+      simp [hsd.sig_eq]
+    · rw [cont?_setCont, if_neg hq]
+
+/-! ### the shape of `arrSetRaw` / `mapSetRaw` / `arrSet` / `mapSet` -/
+
+theorem arrSetRaw_split {fuel : Nat} {w : World} {p : SlabID} {i : Nat} {v : WVal} {cx : Ctx} {old : Elem} {w3c : World}
+    {cx3 : Ctx} (h : arrSetRaw fuel w p i v cx = .ok (old, w3c, cx3)) :
+    ∃ a e w1 cx1 a' cx2 w3, w.cont? p = some (.arr a) ∧ w.storableOf v (maxInlineArr w.T) cx = .ok (e, w1, cx1) ∧
+      a.set w1.T i e cx1 = .ok (old, a', cx2) ∧
+      notifyParent fuel (w1.setCont p (.arr a')) p cx2 = .ok (w3, cx3) ∧ w3c = w3.setCallbackArr p i v := by
+  rw [arrSetRaw] at h
+  split at h
+  · rename_i a hp
+    split at h
+    · cases h
+    · split at h
+      · cases h
+      · rename_i e w1 cx1 hst
+        split at h
+        · cases h
+        · rename_i old1 a' cx2 hs
+          try dsimp only at h
+          split at h
+          · cases h
+          · rename_i w3 cx3' hnp
+            cases h
+            exact ⟨a, e, w1, cx1, a', cx2, w3, hp, hst, hs, hnp, rfl⟩
+  · cases h
+
+theorem mapSetRaw_split {fuel : Nat} {w : World} {p : SlabID} {k : MKey} {v : WVal} {cx : Ctx} {old : Option Elem}
+    {w3c : World} {cx3 : Ctx} (h : mapSetRaw fuel w p k v cx = .ok (old, w3c, cx3)) :
+    ∃ m e w1 cx1 m' cx2 w3, w.cont? p = some (.map m) ∧
+      w.storableOf v (maxInlineMapValue w.T k.size) cx = .ok (e, w1, cx1) ∧
+      m.set w1.mcfg k e cx1 = .ok (old, m', cx2) ∧
+      notifyParent fuel (w1.setCont p (.map m')) p cx2 = .ok (w3, cx3) ∧ w3c = w3.setCallbackMap p k v := by
+  rw [mapSetRaw] at h
+  split at h
+  · rename_i m hp
+    split at h
+    · cases h
+    · rename_i e w1 cx1 hst
+      split at h
+      · cases h
+      · rename_i old1 m' cx2 hs
+        try dsimp only at h
+        split at h
+        · cases h
+        · rename_i w3 cx3' hnp
+          cases h
+          exact ⟨m, e, w1, cx1, m', cx2, w3, hp, hst, hs, hnp, rfl⟩
+  · cases h
+
+theorem arrSet_split {w : World} {p : SlabID} {i : Nat} {v : WVal} {cx : Ctx} {old' : Elem} {w' : World} {cx' : Ctx}
+    (h : w.arrSet p i v cx = .ok (old', w', cx')) :
+    ∃ old w3c cx3 ov w4, arrSetRaw w.fuelOf w p i v cx = .ok (old, w3c, cx3) ∧
+      w3c.uninlineIfNeeded old cx3 = .ok (old', ov, w4, cx') ∧ (∀ z, w'.cont? z = w4.cont? z) ∧ w'.T = w4.T := by
+  unfold arrSet at h
+  simp only [bind, Except.bind] at h
+  split at h
+  · cases h
+  · rename_i r hsr
+    obtain ⟨old, w1, cx1⟩ := r
+    simp only at h
+    split at h
+    · cases h
+    · rename_i r2 hun
+      obtain ⟨o', ov, w2, cx2⟩ := r2
+      simp only [pure, Except.pure] at h
+      cases h
+      refine ⟨old, w1, cx1, ov, w2, hsr, hun, ?_, ?_⟩
+      · intro z; split <;> (try split) <;> (try split) <;> rfl
+      · split <;> (try split) <;> (try split) <;> rfl
+
+theorem mapSet_split {w : World} {p : SlabID} {k : MKey} {v : WVal} {cx : Ctx} {old' : Option Elem} {w' : World}
+    {cx' : Ctx} (h : w.mapSet p k v cx = .ok (old', w', cx')) :
+    ∃ old w3c cx3, mapSetRaw w.fuelOf w p k v cx = .ok (old, w3c, cx3) ∧
+      ((old = none ∧ w' = w3c ∧ cx' = cx3) ∨
+       (∃ o o' ov, old = some o ∧ w3c.uninlineIfNeeded o cx3 = .ok (o', ov, w', cx'))) := by
+  unfold mapSet at h
+  simp only [bind, Except.bind] at h
+  split at h
+  · cases h
+  · rename_i r hsr
+    obtain ⟨old, w1, cx1⟩ := r
+    simp only at h
+    split at h
+    · simp only [pure, Except.pure] at h
+      cases h
+      exact ⟨none, _, _, hsr, Or.inl ⟨rfl, rfl, rfl⟩⟩
+    · rename_i o
+      split at h
+      · cases h
+      · rename_i r2 hun
+        obtain ⟨o', ov, w2, cx2⟩ := r2
+        simp only [pure, Except.pure] at h
+        cases h
+        exact ⟨some o, w1, cx1, hsr, Or.inr ⟨o, o', ov, rfl, hun⟩⟩
+
 end Atree.Deep
